@@ -38,7 +38,7 @@ def r1_checkers(ctx):
     for p in ctx.paths(qn):
         if p.exit != "return":
             continue
-        tag = ",".join("%s" % v for _c, v in p.conds)
+        tag = Q.tags(p.conds)
         i_chk = Q.first_index(p, lambda e: e.kind == "call" and callee(e.data[0]) == "verde.coordinates._check_geographic_region")
         i_use = Q.first_index(p, lambda e: (e.kind == "cond" and any(x == Q.sub(REG, 0) or x == Q.sub(REG, 1) for x in walk(e.data[0]))) or (e.kind == "store"))
         ctx.check("R1", "%s|region-checked-first|%s" % (qn, tag), True if i_chk is not None and (i_use is None or i_chk < i_use) else False,
@@ -80,7 +80,7 @@ def r2_r3_r4(ctx):
     for p in ctx.paths(qn):
         if p.exit != "return":
             continue
-        tag = ",".join("%s" % v for _c, v in p.conds)
+        tag = Q.tags(p.conds)
         with_co = lookup(p.decided, CO) is True
         stores = [e for e in p.events if e.kind == "store"]
         rs = [e for e in stores if REG in Q.leaves(e.data[0]) and CO not in Q.leaves(e.data[0])]
